@@ -39,6 +39,9 @@ if [ "${1:-}" = "--replay" ]; then
   build "$BIN/verif"; exec "$BIN/verif" --replay "${REPLAY_FILE:-$2}"
 fi
 ID="${1:?usage: run.sh <ID> <quick|thorough>}"; TIER="${2:-quick}"
+# fingerprint of the tree under test: a verdict is only meaningful if every binary was built from the same tree
+treeprint() { (git -C "$VERIF_REPO" rev-parse HEAD 2>/dev/null; git -C "$VERIF_REPO" diff HEAD 2>/dev/null; git -C "$VERIF_REPO" status --porcelain 2>/dev/null) | cksum; }
+TREE0="$(treeprint)"
 build "$BIN/verif"
 if [ "$ID" = "C14" ]; then
   # C14 needs three (thorough: four) builds of the CURRENT tree
@@ -61,6 +64,10 @@ ERR="$ROOT/replays/$ID.stderr"
 rm -f "$ERR"
 "$BIN/verif" "$ID" "$TIER" 2>"$ERR"
 code=$?
+if [ "$(treeprint)" != "$TREE0" ]; then
+  echo "INCONCLUSIVE: $VERIF_REPO changed while the check was building or running; rerun on a quiescent tree" >&2
+  exit 3
+fi
 case $code in
   0|1|3|4) [ -s "$ERR" ] && cat "$ERR" >&2; [ $code -eq 0 ] && rm -f "$ERR"; exit $code ;;
   137) echo "INCONCLUSIVE: check process was killed (SIGKILL / out of memory)" >&2; cat "$ERR" >&2; exit 3 ;;
